@@ -358,11 +358,12 @@ impl AssemblyCode {
                     {
                         remove_second = true;
                     }
-                    // Remove STA followed by LDA
+                    // Remove STA followed by LDA (if the flags are those of A: the load sets them too)
                     if i1.mnemonic == AsmMnemonic::STA
                         && i2.mnemonic == AsmMnemonic::LDA
                         && i1.dasm_operand == i2.dasm_operand
                         && !i2.protected
+                        && flags == FlagsState::A
                     {
                         remove_second = true;
                     }
